@@ -137,16 +137,16 @@ func (r *Run) collectWrites(fn *Func, depth int, set map[string]bool) {
 				if _, isIdx := ast.Unparen(l).(*ast.IndexExpr); isIdx {
 					kind = "store"
 				}
-				set[fv.Name()+":"+kind] = true
+				set[r.P.FieldName(fv)+":"+kind] = true
 			}
 		case *ast.IncDecStmt:
 			if fv := fieldOf(s.X); fv != nil {
-				set[fv.Name()+":set"] = true
+				set[r.P.FieldName(fv)+":set"] = true
 			}
 		case *ast.CallExpr:
 			if b, ok := calleeObj(info, s).(*types.Builtin); ok && b.Name() == "delete" && len(s.Args) > 0 {
 				if fv := fieldOf(s.Args[0]); fv != nil {
-					set[fv.Name()+":delete"] = true
+					set[r.P.FieldName(fv)+":delete"] = true
 				}
 			}
 			if g, ok := calleeObj(info, s).(*types.Func); ok && g.Pkg() == fn.Obj.Pkg() {
